@@ -65,6 +65,10 @@ def gen_c16(rng, tier, n):
             else:
                 lines.append(_replay(rng, names, j))
         if rng.random() < 0.15 and len(names) >= 3:
+            # a chain whose first step races a ClearUpcasts (a writer on the registry lock) against its own chain
+            a, b, c = rng.sample(names, 3)
+            lines += ["clear", "reg %d %d %d 0 %d 0" % (a, b, b, 200 + rng.randrange(40)), "reg %d %d %d 0 19 0" % (b, c, c), "replay 3 3 %d 1 0" % a]
+        if rng.random() < 0.15 and len(names) >= 3:
             # raw upcasters that return, instead of their declared target, the source of the next one: the registered
             # graph stays acyclic (all edges point to one sink) while the returned types go round in a ring of 2 or 3
             k = rng.choice([2, 3]); ring = rng.sample(names, k); sink = rng.choice([t for t in names if t not in ring] or [ring[0]])
@@ -120,6 +124,16 @@ def gen_c17(rng, tier, n):
         for j, t in enumerate(names + [9]):
             data = ",".join(str(rng.randint(0, 9)) for _ in range(rng.randint(0, 3))) or "-"
             lines.append("replay %d %d %d %s %d" % (j + 1, 7000 + j, t, data, rng.choice([0, 0, 5, 9])))
+        # the same stored event object once more, after the registry changed (a failing step appended, or everything cleared)
+        if rng.random() < 0.5:
+            t = rng.choice(names)
+            lines.append("replay 30 7200 %d 4 0" % t)
+            x = rng.random()
+            if x < 0.4:
+                lines.append("reg %d %d %d 1 77 0" % (names[-1], 99, 99))      # a failing upcaster at the end of the chains
+            elif x < 0.7:
+                lines.append("clear")
+            lines.append("replayagain")
         if len(names) > k:
             # the same typed source replayed again with the optional field absent / present
             for j in range(3):
